@@ -239,6 +239,9 @@ public:
   bool remove(const value_type& x) {
     bool ret = false;
 
+    if (container.empty())
+      return false;
+
     // TODO: write a better remove method
     if (x == top()) {
       pop();
